@@ -24,6 +24,7 @@ OffsAll == {0, 1501, 25200, 115200, 118799}
 PeriodsSmall == {5, 60}
 PeriodsAll == {1, 5, 7, 15, 60}
 KSmall == {0, 1, 4}
+KMid == {0, 1, 2, 13}
 KAll == {0, 1, 2, 13, 100, 288}
 \* 0.05 0.5 3.3 7.9 14.2 50 kWh in W*min
 EnergiesSmall == {30000, 474000, 3000000}
